@@ -1,31 +1,12 @@
 (* C11/Props.v — property-level theorems only. Tags are read by bin/check. *)
 From Coq Require Import List NArith Lia.
-From BLB Require Import Gen.Consts Meta.AMap Meta.Curator Meta.CuratorFacts Meta.CuratorInv C11.Proofs C11.ProofsInv C11.ProofsG C11.BridgeC13.
+From BLB Require Import Gen.Consts Meta.AMap Meta.Curator Meta.CuratorFacts Meta.CuratorInv C11.Proofs C11.ProofsInv C11.ProofsG C11.ProofsBE C11.BridgeC13.
 Import ListNotations.
 Open Scope N_scope.
 
-(* [PARTIAL] structural part of the invariant, for ALL command sequences: initial state *)
-Theorem meta_inv_init_partial : parts_ok d_init /\ parts_wf d_init.
-Proof. split; [exact parts_ok_init|constructor]. Qed.
-Print Assumptions meta_inv_init_partial.
-
-(* [PARTIAL] structural part of the invariant is preserved by every Apply: every blob lives in an existing partition, partitions never disappear, NextBlobKey stays a uint32 *)
-Theorem meta_inv_step_partial :
-  forall d i c d' r, dapply d i c = Some (d', r) ->
-    parts_ok d /\ parts_wf d -> (parts_ok d' /\ parts_wf d') /\ step_shape d d'.
-Proof.
-  intros d i c d' r H [P W]. pose proof (dapply_shape _ _ _ _ _ H) as S.
-  repeat split; try exact (proj1 S); try exact (proj2 S).
-  - eapply step_shape_parts_ok; eauto.
-  - eapply dapply_wf; eauto.
-Qed.
-Print Assumptions meta_inv_step_partial.
-
-(* [PARTIAL] hence it holds in every reachable state; clauses a for NextBlobKey above every key, c, g and h of DESIGN C11 are not proved, they are checked on the real code by the monitor only *)
-Theorem meta_inv_reachable_partial :
-  forall cs s r, apply_all s_init cs = Some (s, r) -> parts_ok (fst s) /\ parts_wf (fst s).
-Proof. exact reachable_ok. Qed.
-Print Assumptions meta_inv_reachable_partial.
+(* The round-1 structural theorems meta_inv_init_partial, meta_inv_step_partial and meta_inv_reachable_partial are no longer
+   obligations: what they said, parts_ok and parts_wf in every reachable state, is contained in meta_inv_reachable below,
+   machine-checked by ProofsBE.cinv_structural. The lemmas they rested on stay in Meta/CuratorInv.v, where C10 uses them. *)
 
 (* [FULL] clause f: while read-only mode is set, a command other than SetReadOnlyMode changes nothing but txn_index *)
 Theorem readonly_freezes_metadata :
@@ -123,6 +104,19 @@ Theorem tract_list_only_grows :
 Proof. intros. exact (proj1 (dapply_blob_rel _ _ _ _ _ _ _ _ H H0 H1 H2)). Qed.
 Print Assumptions tract_list_only_grows.
 
+(* [FULL] clause b, prefix form, in every state reachable from the empty database by any list of index and command pairs and for any next command: tract m of a blob that exists before and after is still at position m, its version related by vrel as in clause d, its holders kept, cleared, or replaced by the ChangeTract naming it with a list of the same length; and if the command is an ExtendBlob, then every blob is exactly unchanged except, on success, the named live blob, whose new tract list is the old list followed by one fresh tract, version 1 and no RS pointer, per host list of the command, first being the old length *)
+Theorem extend_keeps_existing_tracts :
+  forall cs s rs i c d' r id b,
+    apply_all s_init cs = Some (s, rs) -> dapply (fst s) i c = Some (d', r) -> aget id (d_blobs (fst s)) = Some b ->
+    (forall b' m t, aget id (d_blobs d') = Some b' -> nth_error (b_tracts b) m = Some t ->
+       exists t', nth_error (b_tracts b') m = Some t' /\ vrel c id m t t' /\ hrel_n c id m t t') /\
+    (forall eid first hs, c = CExtend eid first hs ->
+       exists b', aget id (d_blobs d') = Some b' /\
+         (b' = b \/ (eid = id /\ r = [6; e_NoError; N.of_nat (length (b_tracts b'))] /\ live_blob (fst s) id = Some b /\
+                     first = N.of_nat (length (b_tracts b)) /\ b_tracts b' = b_tracts b ++ map fresh_tract hs))).
+Proof. exact extend_keeps_lemma. Qed.
+Print Assumptions extend_keeps_existing_tracts.
+
 (* [FULL] clause d: across one Apply the version of an existing tract is unchanged, or is raised by exactly one as uint32 by the ChangeTract that names this tract and demands exactly that, or is set to NewVersion by a CommitRSChunk entry naming this tract, and then NewVersion is the stored version plus one, the repair of finding F6, unless the entry carries NewVersion below 2, which the repaired command deliberately does not check *)
 Theorem tract_versions_change_only_by_one :
   forall d i c d' r id b b' m t t',
@@ -185,6 +179,17 @@ Proof.
 Qed.
 Print Assumptions deleted_blob_invisible_and_unchanged.
 
+(* [FULL] clause e, answer form, for any state and any command that is actually executed, index above txn_index and not in read-only mode: if the blob id is present and marked deleted, then ExtendBlob, DeleteBlob, SetMetadata, ChangeTract and UpdateStorageClass naming it answer ErrNoSuchBlob in their result type and change nothing but txn_index; a CommitRSChunk with an entry naming it fails with an error, ErrNoSuchBlob unless an earlier entry or the chunk-exists check fails first, and changes nothing but txn_index; UpdateTimes answers NoError and leaves the blob exactly as it is. Undelete is the exception, FinishDelete is the final deletion of live_blob_never_removed, the remaining commands name no blob *)
+Theorem deleted_blob_commands_refused :
+  forall d i c d' r id b,
+    dapply d i c = Some (d', r) -> aget id (d_blobs d) = Some b -> b_deleted b <> 0 ->
+    d_index d < i -> d_ro d = false ->
+    (names_one c id -> r = nosuch_answer c /\ d' = set_index d i) /\
+    (names_commit c id -> (exists e, r = r_err e /\ e <> e_NoError) /\ d' = set_index d i) /\
+    (forall ups, c = CUpdateTimes ups -> r = r_err e_NoError /\ aget id (d_blobs d') = Some b).
+Proof. exact deleted_refused_lemma. Qed.
+Print Assumptions deleted_blob_commands_refused.
+
 (* [FULL] clause a for RS chunk ids: a successful AllocateRSChunkIDs n returns the NextRsChunkKey k of a partition, none of the ids k to k+n-1 had been handed out before and all of them count as handed out afterwards; n below 2^64 - MaxRSChunkKey excludes only a uint64 wrap *)
 Theorem rs_chunk_ids_fresh :
   forall d i n d' rp k, dapply d i (CAllocRS n) = Some (d', [9; e_NoError; rp; k]) -> pinv d ->
@@ -245,6 +250,26 @@ Theorem packtracts_layouts_satisfy_layout_sub :
            (C13.Model.ffd lens c_meta_RSPieceLength).
 Proof. exact packed_layouts_accepted. Qed.
 Print Assumptions packtracts_layouts_satisfy_layout_sub.
+
+(* [FULL] clause g, pad alignment, under layout_sub and the alignment hypothesis aligned_sub, every extent of a submitted CommitRSChunk starts at a multiple of padToLength: inv_pad is preserved by every Apply, holds in every state reachable by such commands from the empty database, and means that every extent of every piece of every stored chunk starts at a multiple of padToLength; extents are only ever removed, by FinishDelete, or added as the layout of a CommitRSChunk *)
+Theorem rs_extents_pad_aligned :
+  (forall d i c d' r, dapply d i c = Some (d', r) -> layout_sub c -> aligned_sub c -> inv_pad d -> inv_pad d') /\
+  (forall cs d rs, dapply_all d_init cs = Some (d, rs) ->
+     Forall (fun e => layout_sub (snd e) /\ aligned_sub (snd e)) cs -> inv_pad d) /\
+  (forall d k ch piece x, inv_pad d -> aget k (d_chunks d) = Some ch -> In piece (c_data ch) -> In x piece ->
+     rt_off x mod c13_padToLength = 0).
+Proof. exact pad_aligned_lemma. Qed.
+Print Assumptions rs_extents_pad_aligned.
+
+(* [FULL] the alignment hypothesis is the other half of what C13 proved about packTracts: under the same conditions as packtracts_layouts_satisfy_layout_sub every extent of every chunk of first-fit-decreasing packTracts starts at a multiple of padToLength; uses C13 pack_layout_wf *)
+Theorem packtracts_layouts_aligned :
+  forall lens (mk : C13.Model.ext -> enc_tract),
+    (forall x, et_off (mk x) = C13.Model.e_off x /\ et_len (mk x) = C13.Model.e_len x) ->
+    Forall (fun l => C13.Model.padded l <= c_meta_RSPieceLength) lens ->
+    Forall (fun c => Forall (fun e => et_off e mod c13_padToLength = 0) (map mk (C13.Model.pc_exts c)))
+           (C13.Model.ffd lens c_meta_RSPieceLength).
+Proof. exact packed_layouts_aligned. Qed.
+Print Assumptions packtracts_layouts_aligned.
 
 (* non-vacuity: a history with two creates, an extend, a replica change, a delete, a final delete and a re-create; the
    hypotheses of the step theorems are met at every step (cinv by meta_inv_reachable) and the conclusions are not trivial *)
